@@ -182,8 +182,19 @@ pub fn gen_result(r: Result<Result<(apache_avro::types::Value, usize), String>, 
 }
 
 /// `project`: value -> the term of what it serializes as (schema-guided re-tagging included)
-pub fn run_subject<T: Serialize + DeserializeOwned>(value: &T, schema: &Schema, project: &dyn Fn(&T) -> J) -> (J, J, J) {
-    run_subject_with(value, schema, project, &TARGETS)
+/// does the schema contain an array or a map (only then does the block size setting matter)?
+pub fn schema_has_blocks(s: &J) -> bool {
+    match s {
+        J::Object(o) => {
+            matches!(o.get("k").and_then(|k| k.as_str()), Some("array") | Some("map")) || o.iter().any(|(k, v)| k != "def" && k != "defjson" && schema_has_blocks(v))
+        }
+        J::Array(a) => a.iter().any(schema_has_blocks),
+        _ => false,
+    }
+}
+
+pub fn run_subject<T: Serialize + DeserializeOwned>(value: &T, schema: &Schema, project: &dyn Fn(&T) -> J, blocks: bool) -> (J, J, J) {
+    run_subject_with(value, schema, project, if blocks { &TARGETS } else { &TARGETS[..1] })
 }
 
 pub fn run_subject_with<T: Serialize + DeserializeOwned>(value: &T, schema: &Schema, project: &dyn Fn(&T) -> J, targets: &[usize]) -> (J, J, J) {
@@ -307,7 +318,7 @@ fn run_typed<T: Serialize + DeserializeOwned>(term: &SV, schema: &Schema, s: &J)
         }
     };
     let sv = project(&value);
-    let (runs, r2, fv) = run_subject(&value, schema, &project);
+    let (runs, r2, fv) = run_subject(&value, schema, &project, schema_has_blocks(s));
     Ok((sv, runs, r2, fv))
 }
 
@@ -369,7 +380,7 @@ pub fn cmd_run(a: &Args) -> i32 {
             SHAPE.with(|sh| *sh.borrow_mut() = Some(term.clone()));
             let subject = Shaped(term);
             let project = |v: &Shaped| v.0.to_term();
-            let (runs, r2, fv) = run_subject(&subject, &schema, &project);
+            let (runs, r2, fv) = run_subject(&subject, &schema, &project, schema_has_blocks(s));
             ev["runs"] = runs;
             ev["r2"] = r2;
             ev["fv"] = fv;
